@@ -63,12 +63,28 @@ Qed.
 
 (* ------------------------------------------------------------------ insert *)
 
+(* progress of a pending resize across a call that adds a key (or overwrites an element that
+   still waits in the old table): min(R, remaining) elements leave the old table, which is
+   released when none is left; a call that only touches the main table changes nothing *)
+Definition progress (r : rt) (moves : bool) (r' : rt) : Prop :=
+  match lo r with
+  | Some o =>
+      if moves then
+        match lo r' with
+        | Some o' => ocnt o' + R = ocnt o /\ R < ocnt o /\ oB o' = oB o
+        | None => ocnt o <= R
+        end
+      else shape r' = shape r
+  | None => True
+  end.
+
 Definition map_insert_Q (r : rt) (k kid v : N) (res : option N) (r' : rt) : Prop :=
   Inv R ES r' /\
   match rt_abs r !! k with
   | Some e => res = Some (ev e) /\ rt_abs r' = <[k := Elem k (ekid e) v]> (rt_abs r)
   | None => res = None /\ rt_abs r' = <[k := Elem k kid v]> (rt_abs r)
-  end.
+  end /\
+  progress r (match hel (main r) !! k with Some _ => false | None => true end) r'.
 
 Definition loss_U (r : rt) (k kid v : N) (p : panic) (s' : st) : Prop :=
   Inv R ES (s_rt s') /\ (p = PUser \/ (p = PCapOverflow /\ rt_abs (s_rt s') = rt_abs r)) /\
@@ -91,12 +107,17 @@ Proof.
     apply (set_value_spec im k v e); [rewrite Hs1; exact HI|rewrite Hs1; exact Hf|].
     intros s2 HI2 Habs2 Hsh2 Hf2. rewrite Hs1 in *.
     assert (Hfin : forall s3, Inv R ES (s_rt s3) -> rt_abs (s_rt s3) = rt_abs (s_rt s2) ->
+               progress (s_rt s) (negb im) (s_rt s3) ->
                wp (bind (drop_key kid) (fun _ => ret (Some (ev e))))
                   (fun res s' => map_insert_Q (s_rt s) k kid v res (s_rt s')) (loss_U (s_rt s) k kid v) s3).
-    { intros s3 HI3 Habs3. apply wp_bind. apply frame0_use; [apply frame0_tick|]. intros [] s4 Hs4. apply wp_ret.
-      unfold map_insert_Q. rewrite Hs4. split; [exact HI3|]. rewrite Hfa. split; [reflexivity|congruence]. }
+    { intros s3 HI3 Habs3 Hpr. apply wp_bind. apply frame0_use; [apply frame0_tick|]. intros [] s4 Hs4. apply wp_ret.
+      unfold map_insert_Q. rewrite Hs4. split; [exact HI3|]. rewrite Hfa. split; [split; [reflexivity|congruence]|].
+      destruct im.
+      - apply rt_find_main in Hf. rewrite Hf. exact Hpr.
+      - apply rt_find_old in Hf as (Hnone & _). rewrite Hnone. exact Hpr. }
     destruct im.
-    + apply wp_bind. apply wp_ret. apply Hfin; [exact HI2|reflexivity].
+    + apply wp_bind. apply wp_ret. apply Hfin; [exact HI2|reflexivity|].
+      unfold progress. cbn [negb]. destruct (lo (s_rt s)); [exact Hsh2|exact I].
     + (* the element is still in the old table: carry *)
       apply wp_bind. wp_steps.
       pose proof (rt_find_old _ _ _ Hf2) as (Hnone2 & o2 & Hlo2 & Hl2).
@@ -105,7 +126,14 @@ Proof.
       eapply wp_conseq; [apply (rt_carry_spec c s2 o2 HR Hlo2 Hok2)| |].
       * apply old_ok_pre with (c := c). exact Ho2.
       * apply budget_of_need'; [exact HR|]. destruct Ho2 as (_ & _ & _ & _ & Hn). exact Hn.
-      * intros [] s3 (HI3 & Habs3 & _). apply Hfin; assumption.
+      * intros [] s3 (HI3 & Habs3 & _ & _ & Hlo3). apply Hfin; [assumption|assumption|].
+        unfold progress. cbn [negb]. rewrite Hlo2 in Hlo3. destruct Hlo3 as (_ & _ & Hlo3).
+        unfold shape in Hsh2. rewrite Hlo2 in Hsh2.
+        destruct (lo (s_rt s)) as [o|]; [|exact I]. cbn [option_map] in Hsh2.
+        assert (Hoo : ocnt o2 = ocnt o /\ oB o2 = oB o) by (split; congruence). destruct Hoo as [Hc2 HB2].
+        destruct (lo (s_rt s3)) as [o3|].
+        -- destruct Hlo3 as (H1 & H2 & H3). rewrite N.min_l in H1 by lia. repeat split; congruence || lia.
+        -- lia.
       * intros p s3 (HI3 & -> & Hsub). apply wp_bind. apply frame0_use; [apply frame0_tick|]. intros [] s4 Hs4.
         apply frame0_use; [apply frame0_tick|]. intros [] s5 Hs5. unfold loss_U. rewrite Hs5, Hs4.
         split; [exact HI3|]. split; [left; reflexivity|].
@@ -113,8 +141,14 @@ Proof.
         rewrite lookup_insert_ne in Hx by congruence. exact Hx.
   - cbn [option_map] in Hfa. apply wp_bind.
     eapply wp_conseq; [apply (rt_insert_spec c (Elem k kid v) s1); [rewrite Hs1; exact HI|rewrite Hs1; exact Hfa]| |].
-    + intros [] s2 (HI2 & Habs2 & _). apply wp_ret. unfold map_insert_Q. split; [exact HI2|].
-      rewrite Hfa. split; [reflexivity|]. rewrite Habs2, Hs1. reflexivity.
+    + intros [] s2 (HI2 & Habs2 & Hpos & Hfull). apply wp_ret. unfold map_insert_Q. split; [exact HI2|].
+      rewrite Hfa. split; [split; [reflexivity|rewrite Habs2, Hs1; reflexivity]|].
+      rewrite Hs1 in *. unfold rt_find_pure in Hf.
+      destruct (hel (main (s_rt s)) !! k) eqn:Hm; [discriminate|].
+      unfold progress. destruct (lo (s_rt s)) as [o|] eqn:Hlo; [|exact I].
+      destruct (N.eq_dec (hgl (main (s_rt s))) 0) as [Hz|Hz].
+      * destruct (Hfull Hz) as [Hcontra _]. discriminate.
+      * destruct (Hpos ltac:(lia)) as (_ & _ & _ & _ & Hprog). rewrite Hlo in Hprog. destruct Hprog as [_ Hprog]. exact Hprog.
     + intros p s2 (HI2 & Hp & Hsub). split; [exact HI2|]. split; [rewrite Hs1 in Hp; exact Hp|].
       intros j x Hx Hjk. eapply lookup_weaken in Hx; [|exact Hsub]. cbn [ek] in Hx.
       rewrite lookup_insert_ne in Hx by congruence. rewrite Hs1 in Hx. exact Hx.
